@@ -1,4 +1,4 @@
-import HpoProofs.Binary
+import HpoProofs.BinaryLoad
 /-!
 # C07 — binary serialisation round-trips
 
@@ -60,6 +60,25 @@ theorem C07_roundtrip_partial (o : Onto) (h : EncOK o) :
   have hb := decodeBytes_enc_tail 3 (factsOf o) hf []
   simp only [List.append_nil, finish, List.isEmpty_nil, ↓reduceIte, Res.bind, projFacts_factsOf] at hv hr hb
   exact ⟨hv, hr, hb⟩
+
+/-- The part of "observationally identical" that is proved for the WHOLE pipeline
+(`as_bytes` → bytes → `from_bytes` with all its builder steps): whenever the reload succeeds, the
+reloaded ontology has the same release version and, in the same order, the same terms with id, name
+(cut to the documented 255-byte limit), obsolete flag and replacement. Hypothesis besides `EncOK`:
+term ids are unique (they are keys of the arena). -/
+theorem C07_roundtrip_terms (o o' : Onto) (h : EncOK o) (hnd : (o.terms.map (·.id)).Nodup)
+    (hload : decodeBytes (encodeOnto o) = .ok o') :
+    o'.version = o.version ∧
+    o'.terms.map (fun t => (t.id, t.name, t.obsolete, t.replacement)) =
+      o.terms.map (fun t => (t.id, truncName t.name, t.obsolete, t.replacement)) := by
+  rw [(C07_roundtrip_partial o h).2.2] at hload
+  have hid : ∀ t ∈ (factsOf o).terms, t.id < maxId := fun t ht => ((FileOK_factsOf o h).facts.terms t ht).1
+  have := loadFacts_terms 3 (by decide) (factsOf o) o' hid
+    (by simpa [factsOf, map_id_termFacts] using hnd) hload
+  refine ⟨this.2, ?_⟩
+  have e := this.1
+  simp only [factsOf, map_core_termFacts] at e
+  exact e
 
 /-- Serialisation never emits bytes that the DECODER rejects or panics on: version detection,
 framing and every record decoder succeed (no `err`, no `panic`, no `diverge`).
